@@ -36,7 +36,8 @@ def cases(tier, seed):
 
 def gen_distribution(rng, d, allow_normal=True):
     """returns (distribution infos list, a, b, kind)"""
-    kind = rng.choice(["uniform", "uniform_mixed_bounds", "triangle", "normal", "triangle_mixed", "normal_mixed", "triangle_mixed_bounds"]
+    kind = rng.choice(["uniform", "uniform_mixed_bounds", "triangle", "normal", "triangle_mixed", "normal_mixed", "triangle_mixed_bounds",
+                       "normal_truncated"]
                       if allow_normal else ["uniform", "uniform_mixed_bounds", "triangle", "triangle_mixed", "triangle_mixed_bounds"])
     if kind == "uniform":
         lo = rng.choice([0.0, -1.0, rng.uniform(-3, 3)])
@@ -60,6 +61,24 @@ def gen_distribution(rng, d, allow_normal=True):
         a = [m - rng.uniform(0.2, 2) for _ in range(d)]
         b = [m + rng.uniform(0.2, 2) for _ in range(d)]
         return [("Triangle", float(m)) for _ in range(d)], a, b, "triangle"
+    if kind == "normal_truncated":
+        # Normal distributions on a finite or half-infinite support that cuts off noticeable mass (used without boundary points,
+        # where the weights are renormalised to the truncated distribution)
+        infos, a, b = [], [], []
+        for _ in range(d):
+            mu, sg = float(rng.uniform(-2, 2)), float(rng.uniform(0.3, 2))
+            infos.append(("Normal", mu, sg))
+            form = rng.random()
+            if form < 0.5:
+                a.append(mu - rng.uniform(0.5, 2.5) * sg)
+                b.append(mu + rng.uniform(0.5, 2.5) * sg)
+            elif form < 0.75:
+                a.append(mu - rng.uniform(-0.5, 2.0) * sg)
+                b.append(np.inf)
+            else:
+                a.append(-np.inf)
+                b.append(mu + rng.uniform(-0.5, 2.0) * sg)
+        return infos, a, b, "normal"
     if kind == "normal_mixed":
         return [("Normal", float(rng.uniform(-2, 2)), float(rng.uniform(0.3, 3))) for _ in range(d)], [-np.inf] * d, [np.inf] * d, "normal"
     mu, sigma = rng.uniform(-2, 2), rng.uniform(0.3, 3)
@@ -100,6 +119,8 @@ def reference_distribution(info, lo, hi):
         return stats.uniform(loc=lo, scale=hi - lo)
     if info[0] == "Triangle":
         return stats.triang(c=(info[1] - lo) / (hi - lo), loc=lo, scale=hi - lo)
+    if np.isfinite(lo) or np.isfinite(hi):
+        return stats.truncnorm((lo - info[1]) / info[2], (hi - info[1]) / info[2], loc=info[1], scale=info[2])
     return stats.norm(loc=info[1], scale=info[2])
 
 
@@ -172,6 +193,7 @@ def run_grid(case, res):
             x2 = rng.choice([np.inf, mu + sg * rng.uniform(-4, 4), mu + 6 * sg])
             if not x1 < x2:
                 x1, x2 = min(x1, x2), max(x1, x2)
+            x1, x2 = max(x1, a[k]), min(x2, b[k])      # intervals of the (possibly truncated) support only
             if not x1 < x2:
                 continue
         else:
@@ -202,6 +224,8 @@ def run_run(case, res):
     infos, a, b, kind = gen_distribution(rng, d)
     boundary = False if kind == "normal" else rng.random() < 0.5
     c_, e_ = rng.choice([3.0, -2.0, 0.5, rng.uniform(-5, 5)]), rng.choice([-2.0, 0.0, 7.0, rng.uniform(-5, 5)])
+    if rng.random() < 0.2:
+        e_ = rng.choice([1e3, -1e4, 1e5, -1e5, 3e5])      # mean large against the spread: the variance is a small difference of large moments
     const = rng.uniform(-3, 3)
     if kind == "normal":
         mu, sg = infos[0][1], infos[0][2]
@@ -247,7 +271,7 @@ def run_run(case, res):
                   "C15_expectation_not_affine:" + kind + tag, "read-out #%d: E[c g + e] = %r but c E[g] + e = %r" % (rep + 1, E[1], c_ * E[0] + e_), cfg)
         # Var[c g + e] is computed as mom2 - E^2 with mom2 ~ (c g + e)^2: conditioning ~ (c^2 mom2_g + e^2)
         vscale = (c_ * c_ * abs(mom2[0]) + 2 * abs(c_ * e_ * E[0]) + e_ * e_ + 1e-300)
-        res.close("variance_affine", V[1], c_ * c_ * V[0], 1e-10 * vscale * 4, "C15_variance_not_quadratic:" + kind + tag,
+        res.close("variance_affine", V[1], c_ * c_ * V[0], 1e-12 * vscale * 4, "C15_variance_not_quadratic:" + kind + tag,
                   "read-out #%d: Var[c g + e] = %r but c^2 Var[g] = %r" % (rep + 1, V[1], c_ * c_ * V[0]), cfg)
         res.check("variance_nonnegative", bool(np.all(V >= 0)), "C15_negative_variance" + tag, "negative variance %s" % V, cfg)
         res.close("constant_model", [E[2], V[2]], [const, 0.0], [1e-10 * max(1.0, abs(const)), 1e-10 * max(1.0, const * const)],
